@@ -69,3 +69,6 @@ package types
 //@   invariant #1 idx: 0 - 1 <= rangeindex && rangeindex < len(ack.AppAcknowledgements)
 //@   ensures nonempty_list: err == nil ==> len(ack.AppAcknowledgements) > 0
 //@   ensures elements: err == nil ==> forall j int :: 0 <= j && j < len(ack.AppAcknowledgements) ==> len(ack.AppAcknowledgements[j]) > 0 && (len(ack.AppAcknowledgements) > 1 ==> str(ack.AppAcknowledgements[j]) != str(ErrorAcknowledgement))
+
+//@ contract (Acknowledgement).Success
+//@   ensures len(ack.AppAcknowledgements) > 0 ==> result == (str(ack.AppAcknowledgements[0]) != str(ErrorAcknowledgement))
